@@ -387,7 +387,26 @@ where
             let mut w: Vec<u8> = Vec::new();
             v.write(&mut w, e).unwrap();
             assert_eq!(bytes, w, "to_vec and write disagree");
-            ok1(bytes_token(&bytes))
+            // a sink that accepts at most three bytes per call (what a pipe or socket may do) must still receive everything,
+            // and a sink that is one byte too small must make `write` fail
+            struct Short(Vec<u8>);
+            impl std::io::Write for Short {
+                fn write(&mut self, buf: &[u8]) -> std::io::Result<usize> {
+                    let k = buf.len().min(3);
+                    self.0.extend_from_slice(&buf[..k]);
+                    Ok(k)
+                }
+                fn flush(&mut self) -> std::io::Result<()> { Ok(()) }
+            }
+            let mut sh = Short(Vec::new());
+            let r = v.write(&mut sh, e);
+            let short_ok = r.is_ok();
+            let small_fails = if bytes.is_empty() { true } else {
+                let mut buf = vec![0u8; bytes.len() - 1];
+                let mut sl: &mut [u8] = &mut buf[..];
+                v.write(&mut sl, e).is_err()
+            };
+            format!("ok {} {} {} {}", bytes_token(&bytes), bytes_token(&sh.0), tok_bool(short_ok), tok_bool(small_fails))
         }
         "hash" => {
             let mut h = RecHasher::default();
